@@ -27,7 +27,7 @@ def Mem_Set : List String := ["mu.Lock", "defer mu.Unlock", "@m.data", "@m.data"
 def Mem_SetExpiration : List String := ["mu.Lock", "defer mu.Unlock", "@m.data", "{ret", "}", "IsZero", "@item.Expiration", "After", "@item.Expiration", "{ret", "delete", "@m.data", "}", "@item.Expiration", "expirationFor"]
 def Mem_SetHash : List String := ["mu.Lock", "defer mu.Unlock", "@m.data", "@m.data", "@m.data", "Add", "@m.data", "IsZero", "@item.Expiration", "After", "@item.Expiration", "@item.Value", "@item.Expiration", "Add", "@hash", "@item.Value", "{ret", "@hash", "}", "@item.Value", "@hash", "@item.Value", "@hash"]
 def Mem_SetList : List String := ["m.Set"]
-def Mem_SetNX : List String := ["mu.RLock", "@m.data", "IsZero", "@item.Expiration", "After", "@item.Expiration", "mu.RUnlock", "{ret", "}", "mu.Lock", "defer mu.Unlock", "delete", "@m.data", "@m.data", "{ret", "}", "Add", "@m.data"]
+def Mem_SetNX : List String := ["mu.Lock", "defer mu.Unlock", "@m.data", "IsZero", "@item.Expiration", "After", "@item.Expiration", "{ret", "}", "delete", "@m.data", "Add", "@m.data"]
 def Mem_Watch : List String := ["mu.RLock", "@m.data", "IsZero", "@item.Expiration", "After", "@item.Expiration", "@item.Value", "mu.RUnlock"]
 def Mem_ZAdd : List String := ["mu.Lock", "defer mu.Unlock", "@m.data", "@m.data", "@m.data", "@m.data", "@item.Value", "{ret", "@item.Value", "}", "@item.Value"]
 def Mem_ZCard : List String := ["mu.RLock", "defer mu.RUnlock", "@m.data", "{ret", "}", "@m.data", "{ret", "}", "@item.Value", "{ret", "}"]
